@@ -9,9 +9,18 @@ pub trait TreapItemSized {
     fn size(&self) -> usize;
 }
 
+// threads are numbered in the order in which they create their first node
+static THREADS: std::sync::atomic::AtomicU64 = std::sync::atomic::AtomicU64::new(0);
+
 thread_local! {
-    // one generator per thread: nodes may be created on several threads at once
-    static RNG: std::cell::RefCell<Rng> = std::cell::RefCell::new(Rng::from_seed(42));
+    // one generator per thread: nodes may be created on several threads at once.  Every thread has its
+    // own seed (the first one keeps 42): with equal seeds the k-th nodes of all threads would share one
+    // priority, and merging nodes made on many threads would build a path instead of a balanced tree
+    static RNG: std::cell::RefCell<Rng> = std::cell::RefCell::new(Rng::from_seed(
+        42 ^ THREADS
+            .fetch_add(1, std::sync::atomic::Ordering::Relaxed)
+            .wrapping_mul(0x9E37_79B9_7F4A_7C15),
+    ));
 }
 
 type Priority = u32;
